@@ -16,7 +16,7 @@
 // (1, 255, 255) and (255, 255, 13) is what the `.unwrap()` at mod.rs:621-628,
 // 653-660 and 722-727 turns into a panic; that last step is reproduced
 // natively through Server::handle_message with a 553-octet request (see
-// /verif/proposed_fixes/tsig-reservation-unwrap.md).
+// /verif/proposed_fixes/tsig-unwrap.md).
 //
 // Not registered here: harnesses that call the three helpers themselves with
 // 255-octet names.  Two variants were tried (ReadTsigRr from the real try_from;
@@ -99,7 +99,7 @@ fn set_tsig_reservation<const LQ: usize, const LK: usize, const LA: usize>() {
     let needed = 12 + LQ + 4 + LK + 10 + LA + 16;
     assert!(r.is_ok() == (needed <= 512), "[C01] set_tsig fails exactly when question + TSIG RR exceed the size limit");
     // mod.rs:621-628, 653-660 and 722-727 call .unwrap() on this result; the
-    // panic itself is reproduced natively (proposed_fixes/tsig-reservation-unwrap.md)
+    // panic itself is reproduced natively (proposed_fixes/tsig-unwrap.md)
     kani::cover!(true, "reservation made");
     core::mem::forget(question);
 }
